@@ -773,7 +773,10 @@ func (sp *StreamParser) ExecCmd(cb RdbObjExecutor) {
 
 		count := lp.NextInteger()              // items count
 		deleted := lp.NextInteger()            // deleted count
-		numFields := lp.NextInteger()          // num fields
+		numFields := lp.NextInteger() // num fields
+		if numFields < 0 || numFields > int64(lp.NumElements()) {
+			panicIfErr(fmt.Errorf("stream master entry claims %d fields in a listpack of %d elements", numFields, lp.NumElements()))
+		}
 		fields := make([][]byte, 0, numFields) // fields
 		for j := int64(0); j < numFields; j++ {
 			fields = append(fields, lp.Next())
